@@ -3,7 +3,6 @@ Shared pieces of the C07 check: the sandbox with the student program that produc
 JSON-able value specs, the wire encoding for the Lean driver, the runner for the real assertions,
 and the oracle written from the property text (plain Python relations on the raw values).
 """
-import itertools
 import re
 import string
 from fractions import Fraction
@@ -332,22 +331,13 @@ def o_equal(a, b, exact, delta):
     if isinstance(a, list) and isinstance(b, list) or isinstance(a, tuple) and isinstance(b, tuple):
         return len(a) == len(b) and all(o_equal(x, y, exact, delta) for x, y in zip(a, b))
     if isinstance(a, set) and isinstance(b, set):
-        return len(a) == len(b) and _matching(list(a), list(b), lambda x, y: o_equal(x, y, exact, delta))
+        # approximate matching lifted to sets symmetrically: each element has a partner in the other set
+        return (len(a) == len(b) and all(any(o_equal(x, y, exact, delta) for y in b) for x in a)
+                and all(any(o_equal(x, y, exact, delta) for x in a) for y in b))
     if isinstance(a, dict) and isinstance(b, dict):
-        return len(a) == len(b) and _matching(list(a.items()), list(b.items()),
-                                               lambda x, y: o_equal(x[0], y[0], exact, delta)
-                                               and o_equal(x[1], y[1], exact, delta))
+        # keys are keys: compared exactly; values with tolerance / normalisation
+        return set(a.keys()) == set(b.keys()) and all(o_equal(a[k], b[k], exact, delta) for k in a)
     return False
-
-
-def _matching(xs, ys, rel):
-    """Is there a bijection xs -> ys along `rel`?  (sizes are tiny)"""
-    if len(xs) > 6:
-        raise ValueError("set too large for the oracle")
-    for perm in itertools.permutations(range(len(ys))):
-        if all(rel(x, ys[j]) for x, j in zip(xs, perm)):
-            return True
-    return not xs
 
 
 def _holds(f):
